@@ -2,7 +2,7 @@ import EmmyVerif.Model.RangeText
 import EmmyVerif.Drv.Util
 /-! Driver ops of the `printer` family (formatter cluster: range-format text helpers, IR printer).
 
-`printer.rt <text> <s> <e> <prefix>` (hex bytes, numbers, hex bytes):
+`printer.rt <text> <s> <e> <prefix> <keep>` (hex bytes, numbers, hex bytes, `,`-separated offsets or `-`):
   `ok clamp=a:b expand=c:d ls=.. le=.. indent=HEX strip=HEX apply=HEX` where
   clamp = clampRange s e |text|, expand = expandToFullLines text clamp, ls/le = line start/end of the
   raw s/e, indent = lineIndentPrefix text expand.1, strip/apply = strip/applyBaseIndent text prefix. -/
@@ -16,20 +16,21 @@ def hexOf (d : List Nat) : String :=
   String.ofList (d.flatMap fun b => [Drv.hexDigit (b / 16), Drv.hexDigit (b % 16)])
 
 open RangeText in
-def rt (t : List Nat) (s e : Nat) (p : List Nat) : String :=
+def rt (t : List Nat) (s e : Nat) (p : List Nat) (keep : List Nat) : String :=
   let c := clampRange s e t.length
   let x := expandToFullLines t c.1 c.2
   s!"clamp={c.1}:{c.2} expand={x.1}:{x.2} ls={lineStartOffset t s} le={lineEndOffset t e} " ++
-  s!"indent={hexOf (lineIndentPrefix t x.1)} strip={hexOf (stripBaseIndent t p)} apply={hexOf (applyBaseIndent t p)}"
+  s!"indent={hexOf (lineIndentPrefix t x.1)} strip={hexOf (stripBaseIndent t p keep)} apply={hexOf (applyBaseIndent t p keep)}"
 
 def handle (op : String) (args : List String) : Option String :=
   match op, args with
-  | "rt", [t, s, e, p] => do
+  | "rt", [t, s, e, p, k] => do
     let t ← bytesOf t
     let s ← s.toNat?
     let e ← e.toNat?
     let p ← bytesOf p
-    pure ("ok " ++ rt t s e p)
+    let k ← if k == "-" then some [] else (k.splitOn ",").mapM (·.toNat?)
+    pure ("ok " ++ rt t s e p k)
   | _, _ => none
 
 end Drv.Printer
